@@ -38,18 +38,26 @@ def setup(E):
         "False if p <= 0 else ((c % 2 == 0) if p % 2 == 1 else firstmiss(c // 2, p // 2))",
     )
 
+    # complete behaviour of the segment distance (the property is silent for the empty child; the evaluator is not)
+    E.spec(
+        "segd", "c: Int, p: Int, e: Bool", "Int",
+        """-1 if not submask(c, p) else
+           ((runs(c, p, False) - (0 if e else ((1 if firstmiss(c, p) else 0) + (1 if lastmiss(c, p, False) else 0)))) if c > 0
+            else (runs(c, p, False) if e else -1))""",
+    )
+
     add = E.registry.add
     add(Contract(
         f"{M}:subseq_complete",
         params={"sequence": "Seq[Elem]"}, returns="Int",
-        ensures=["result == pow2(len(sequence)) - 1"],
+        ensures=["result == pow2(len(sequence)) - 1", "result >= 0"],
         canary="result == pow2(len(sequence))",
         props=["C18"],
     ))
     add(Contract(
         f"{M}:mask_from_subseq",
         params={"child": "Seq[Elem]", "parent": "Seq[Elem]"}, returns="Int",
-        ensures=["result == mask_from(child, 0, parent, 0)"],
+        ensures=["result == mask_from(child, 0, parent, 0)", "result >= 0"],
         loops={0: LoopSpec(
             header="for (parent_i, parent_v) in enumerate(parent)", index="k", length="n",
             invariants=[
@@ -87,8 +95,10 @@ def setup(E):
                  result == runs(child, parent, False)
                            - (0 if edges else ((1 if firstmiss(child, parent) else 0) + (1 if lastmiss(child, parent, False) else 0))))"""),
             ("at-least-minus-one", "result >= -1"),
+            ("complete-behaviour", "result == segd(child, parent, edges)"),
         ],
-        hints=["lemma_submask_bl(child, parent)", "lemma_runs_open(child, parent)", "lemma_lastmiss_cur(child, parent)"],
+        hints=["lemma_submask_bl(child, parent)", "lemma_runs_open(child, parent)", "lemma_lastmiss_cur(child, parent)",
+               "lemma_runs_empty_child(parent)", "lemma_lastmiss_empty_child(parent)", "lemma_runs_nonneg(child, parent, False)", "lemma_runs_nonneg(child, parent, True)"],
         loops={0: LoopSpec(
             header="for _ in range(parent.bit_length())", index="k", length="n",
             before=["lemma_pow2_mono(bl(child), bl(parent))"],
@@ -135,6 +145,29 @@ def setup(E):
             lemma_submask_le(c, p)
             lemma_bl_mono(c, p)
         """, props=["C18"]))
+    add(Contract(
+        "lemma_runs_empty_child", kind="lemma", params={"p": "Int"},
+        requires=["p >= 0"], ensures=["runs(0, p, True) == 0"],
+        body="""
+        if p > 0:
+            lemma_runs_empty_child(p // 2)
+        """, decreases="p", props=["C18"]))
+    add(Contract(
+        "lemma_lastmiss_empty_child", kind="lemma", params={"p": "Int"},
+        requires=["p >= 0"], ensures=["lastmiss(0, p, True)"],
+        body="""
+        if p > 0:
+            lemma_lastmiss_empty_child(p // 2)
+        """, decreases="p", props=["C18"]))
+    add(Contract(
+        "lemma_runs_nonneg", kind="lemma", params={"c": "Int", "p": "Int", "pm": "Bool"},
+        requires=["c >= 0", "p >= 0"], ensures=["runs(c, p, pm) >= 0"],
+        body="""
+        if p > 0:
+            lemma_runs_nonneg(c // 2, p // 2, pm)
+            lemma_runs_nonneg(c // 2, p // 2, False)
+            lemma_runs_nonneg(c // 2, p // 2, True)
+        """, decreases="p", props=["C18"]))
     # a run already open at the start hides exactly the run that touches the low end
     add(Contract(
         "lemma_runs_open", kind="lemma", params={"c": "Int", "p": "Int"},
